@@ -68,6 +68,9 @@ def project(case, events, cfg="now"):
             _project_event(P, pos, e, cur, nxt, stack, pending_exit, retval, last_alloc, params, cfg, idx_of)
         except (IndexError, ValueError, KeyError):
             P.problems.append("malformed trace line (the run was cut short?): " + e.raw)
+    for i, l in enumerate(lines):
+        if l and l.endswith("testcancel ?"):
+            lines[i] = l.replace("?", "cont")
     P.nthreads = nxt[0]
     P.forced_pf = params.get("parentfirst", "0").strip() not in ("", "0")
     P.gcf = params.get("gchildfirst", params.get("envchildfirst", "1")).strip() or "1"
@@ -120,6 +123,22 @@ def _project_event(P, pos, e, cur, nxt, stack, pending_exit, retval, last_alloc,
                 lines.append("call %d %s %d" % (a, op[0], t)); src.append(e)
                 rec = {"actor": a, "op": op[0], "target": t, "pos": pos, "checks": []}
                 P.calls.append(rec)
+            elif op[0] == "cancel":
+                t = cur.get(int(op[1]))
+                if t is None:
+                    P.problems.append("cancel of a thread that was never created: " + e.raw)
+                    return
+                lines.append("call %d cancel %d" % (a, t)); src.append(e)
+                rec = {"actor": a, "op": "cancel", "target": t, "pos": pos, "checks": []}
+                P.calls.append(rec)
+            elif op[0] == "testcancel":
+                lines.append("call %d testcancel ?" % a); src.append(e)
+                rec = {"actor": a, "op": "testcancel", "target": a, "pos": pos, "checks": [], "line": len(lines) - 1, "acted": False}
+                P.calls.append(rec)
+            elif op[0] == "setcancel":
+                lines.append("call %d setcancel %s" % (a, op[1])); src.append(e)
+                rec = {"actor": a, "op": "setcancel", "target": a, "pos": pos, "checks": [], "arg": int(op[1])}
+                P.calls.append(rec)
             elif op[0] == "exit":
                 pending_exit[a] = int(op[1])
             elif op[0] == "retval":
@@ -133,6 +152,10 @@ def _project_event(P, pos, e, cur, nxt, stack, pending_exit, retval, last_alloc,
             if rec is not None:
                 kv = dict(x.split("=", 1) for x in e.words[2:] if "=" in x)
                 rec["ret"], rec["val"], rec["ret_pos"] = int(e.words[1]), kv.get("val"), pos
+                if rec["op"] == "testcancel":
+                    lines[rec["line"]] = lines[rec["line"]].replace("?", "cont")
+                if "old" in kv:
+                    rec["old"] = int(kv["old"])
                 lines.append("ret %d %s %s" % (a, e.words[1], kv.get("val", "-"))); src.append(e)
         elif e.kind == "E":
             eid = e.words[0]
@@ -181,6 +204,15 @@ def _project_event(P, pos, e, cur, nxt, stack, pending_exit, retval, last_alloc,
                     P.problems.append("finish.enter of an unknown thread: " + e.raw)
                     return
                 P.fin_enter[c] = pos
+                st = stack.get(c) or []
+                if st and st[-1] is not None and st[-1]["op"] == "testcancel":
+                    # the testcancel did not return: the thread terminates itself with PTHREAD_CANCELED
+                    rec = st.pop()
+                    rec["acted"], rec["ret_pos"] = True, pos
+                    lines[rec["line"]] = lines[rec["line"]].replace("?", "acted")
+                    P.expected_ret[c] = -1
+                    lines.append("kact %d" % c); src.append(e)
+                    return
                 if c in pending_exit:
                     v = pending_exit[c]
                     lines.append("call %d exit %d" % (c, v))
@@ -420,4 +452,34 @@ def layout_check():
     for (a0, a1, an), (b0, b1, bn) in zip(rng, rng[1:]):
         if b0 < a1:
             bad.append("descriptor words %s and %s overlap in struct myth_thread" % (an, bn))
+    return bad
+
+
+def oracle_cancel(r):
+    """cancellation, stated on the trace: a thread terminates itself at a testcancel only if cancellation is enabled
+    for it and a cancel naming THIS incarnation was issued before; it goes on only if no such cancel had completed
+    before the testcancel began (or cancellation is disabled); cancel / setcancelstate return 0, setcancelstate reports
+    the previous state; (the join value of a thread that acted is PTHREAD_CANCELED: checked with the other join values)"""
+    P = r["proj"]
+    bad = []
+    enabled = {}
+    for cl in P.calls:                      # P.calls is in trace order of the call lines
+        x = cl["actor"]
+        if cl["op"] == "setcancel" and "ret" in cl:
+            if cl["ret"] != 0:
+                bad.append("setcancelstate returned %d" % cl["ret"])
+            if cl.get("old", enabled.get(x, 1)) != enabled.get(x, 1):
+                bad.append("setcancelstate of t%d reports previous state %s, it was %d" % (x, cl.get("old"), enabled.get(x, 1)))
+            enabled[x] = cl["arg"]
+        elif cl["op"] == "cancel" and "ret" in cl and cl["ret"] != 0:
+            bad.append("cancel returned %d" % cl["ret"])
+        elif cl["op"] == "testcancel":
+            en = enabled.get(x, 1)
+            started = [c for c in P.calls if c["op"] == "cancel" and c["target"] == x and c["pos"] < cl.get("ret_pos", 1 << 60)]
+            done = [c for c in P.calls if c["op"] == "cancel" and c["target"] == x and c.get("ret_pos", 1 << 60) < cl["pos"]]
+            if cl["acted"] and not (en and started):
+                bad.append("t%d (tag %d) terminated itself at a testcancel although %s" % (
+                    x, P.tag.get(x, -1), "its cancellation is disabled" if not en else "nobody cancelled this incarnation"))
+            if not cl["acted"] and "ret" in cl and en and done:
+                bad.append("t%d (tag %d) went on past a testcancel although a cancel of it had completed and cancellation is enabled" % (x, P.tag.get(x, -1)))
     return bad
